@@ -12,6 +12,10 @@ def build_obs(tier, tables=None):
     obs = parse_step_obs(["CHK_C01"], "c01", states=range(0, 10), callbacks=True, tier=tier)
     obs.append(Ob("c01-init-defaults", "init_step.c", [], unwind=10, checks="none", must_reach=("end of harness",), timeout=300,
                   params={"what": "cfg_init_defaults() on int/str/bool/float/no-default/list/single section/multi section declarations, default values symbolic"}))
+    # "holds exactly the values the text denotes": the conversion of value tokens itself (shared with C04),
+    # short tokens of every shape and the numerals around LONG_MIN / LONG_MAX
+    import props.C04 as C04
+    obs += [o for o in C04.build_obs(tier) if o.key in ("int-scalar-n4", "int-list-n4", "int-boundary-decneg15+4", "int-boundary-dec15+4", "int-boundary-hex16", "bool-scalar-n5")]
     if tier != "quick":
         obs += [o for o in parse_step_obs(["CHK_C01"], "c01n3", states=range(0, 10), callbacks=False, tier=tier, ntok=3)]
     return obs
